@@ -455,3 +455,41 @@ def plain_function_table_policy():
                 return (True, True), "tables rebuilt per call from Expr._ufl_num_typecodes_"
             return None, "else-branch: " + " ; ".join(body)[:300]
     return None, "no `if isinstance(function, MultiFunction)` found"
+
+
+# ------------------------------------------------------------------------------------------------
+# every place in ufl/ that builds or indexes a typecode-sized table
+
+def typecode_table_sites():
+    """ast scan of the tree under check: (relative file, enclosing def/class, line, what) for
+      - sequences sized by the number of registered classes (`[...] * X._ufl_num_typecodes_`,
+        `[...] * len(<...classes...>)`),
+      - subscripts indexed by `._ufl_typecode_`."""
+    root = os.path.dirname(ufl.__file__)
+    sites = []
+    for dp, _dn, fns in os.walk(root):
+        for fn in fns:
+            if not fn.endswith(".py"):
+                continue
+            path = os.path.join(dp, fn)
+            try:
+                tree = ast.parse(open(path).read())
+            except SyntaxError:
+                continue
+            rel = os.path.relpath(path, root)
+            scope = {}
+            for node in ast.walk(tree):
+                if isinstance(node, (ast.FunctionDef, ast.ClassDef)):
+                    for ch in ast.walk(node):
+                        scope.setdefault(id(ch), node.name) if not isinstance(node, ast.ClassDef) else None
+            for node in ast.walk(tree):
+                what = None
+                if isinstance(node, ast.BinOp) and isinstance(node.op, ast.Mult):
+                    txt = ast.unparse(node)
+                    if "_ufl_num_typecodes_" in txt or ("len(" in txt and "classes" in txt):
+                        what = "sized: " + txt[:80]
+                elif isinstance(node, ast.Subscript) and "_ufl_typecode_" in ast.unparse(node.slice):
+                    what = "indexed: " + ast.unparse(node)[:80]
+                if what:
+                    sites.append((rel, scope.get(id(node), "<module>"), node.lineno, what))
+    return sorted(set(sites))
